@@ -431,9 +431,9 @@ COMPONENTS = {
              'electrumx.server.daemon.Daemon', 'electrumx.server.mempool',
              'electrumx.server.controller (Controller.run, Notifications)',
              'electrumx.server.session (SessionManager, ElectrumX, LocalRPC)',
-             'electrumx.server.peers', 'electrumx.lib.*', 'aiorpcX transport/framing/JSON-RPC',
+             'electrumx.server.peers', 'electrumx.server.storage (Storage, LevelDB)', 'electrumx.lib.*', 'aiorpcX transport/framing/JSON-RPC',
              'asyncio tasks/futures/locks/shield (BaseEventLoop)'],
-    'stub': ['bitcoind (SimDaemon model)', 'aiohttp.ClientSession (shim)', 'LevelDB (SimDB)',
+    'stub': ['bitcoind (SimDaemon model)', 'aiohttp.ClientSession (shim)', 'the plyvel module (simulated store; the LevelDB class of electrumx.server.storage on top of it is real)',
              'file system and os.* (SimFS)', 'TCP (SimNet)', 'clocks', 'worker-thread scheduling '
              '(real threads, baton passing)', 'Electrum clients / peers (models)'],
 }
